@@ -107,6 +107,22 @@ def acceptsTy (st : Style) (re : Regex) : Nat → IRDefs → Ty → Json → Tri
       | .arr _ => .laxZone
       | .str _ => .laxZone
       | _ => .reject
+    | .derived bases fields _ =>
+      match v with
+      | .obj kvs =>
+        Tri.and
+          (Tri.all (bases.map (fun b => match defs.lookup b with
+            | some d => acceptsTy st re g defs d v
+            | none => .reject)))
+          (Tri.all (fields.map (fun fld =>
+            match kvs.lookup fld.1 with
+            | none => if fld.2.1 then (if isOpt fld.2.2.2 then .laxZone else .reject) else .accept
+            | some x =>
+              if x.isNull && !fld.2.1 && !isConst fld.2.2.2 then .accept
+              else Tri.and (acceptsTy st re g defs fld.2.2.2 x) (checkCons st re fld.2.2.1 x))))
+      | .arr _ => .laxZone
+      | .str _ => .laxZone
+      | _ => .reject
     | .root c inner => Tri.and (acceptsTy st re g defs inner v) (checkCons st re c v)
     | .ref n =>
       match defs.lookup n with
